@@ -16,6 +16,7 @@
    the three availability conditions. The code proved is the repaired one (fix commits F1–F3, see known_findings.json). *)
 From AL Require Import Base Api Mutex RwLock RwApi RwInv RwLive.
 From AL.Tie Require Tie_Raw Tie_RwLock Tie_RwFutures Tie_Mutex.
+From AL.Sched Require RwReadEvSched RwReadEvInv RwReadEvOrd MutexEvSched MutexEvInv MutexEvOrd.
 
 Theorem C06_idle_nothing_pending : forall ops : list rop, N.of_nat (length ops) < RLIVE_BOUND ->
   let x := rrun ops in quiescent x -> r_guards x = [] -> no_unpolled_upgrade x ->
@@ -55,9 +56,42 @@ Proof.
   - split; [eexists; split; reflexivity | reflexivity].
 Qed.
 
+(* ---------- schedule half, clause (b): every interleaving of atomic actions ---------- *)
+(* The micro-step machine of Sched/RwReadEvSched.v cuts every poll of a read() future at each atomic action
+   (compare_exchange, listen, the two loads of the word, the poll of the listener, notify(1), the drop of the listener);
+   writers are abstract (WRITER_BIT is set at any time it is clear, cleared at any time it is set, the clearing thread
+   owing no_writer.notify(1)); any number of futures and writers; polls start at any time; what a future saw when it
+   was created is arbitrary. [gen_rd_bt] says which machine the source is (read from Gen/Sites.v).
+   For EVERY schedule: in a state in which WRITER_BIT is clear (no write guard alive and no writer or upgrader past the
+   inner mutex), no thread is inside a poll or between clearing the bit and its notify, and every future whose waker
+   was called has been polled again, no polled read() waits. *)
+Theorem C06_sched_readers : forall (sched : list RwReadEvSched.act) (nfuts : nat),
+  RwReadEvSched.lostb (RwReadEvSched.run RwReadEvSched.gen_rd_bt nfuts sched) = false.
+Proof. rewrite RwReadEvOrd.rd_bt_premise. exact RwReadEvInv.rw_read_sched_no_lost_wakeup. Qed.
+
+Theorem C06_sched_readers_inflight : forall (sched : list RwReadEvSched.act) (nfuts : nat),
+  let s := RwReadEvSched.run RwReadEvSched.gen_rd_bt nfuts sched in
+  RwReadEvSched.g_wb s = false -> RwReadEvInv.needy s = true -> RwReadEvInv.inflight s = true.
+Proof. rewrite RwReadEvOrd.rd_bt_premise. exact RwReadEvInv.rw_read_sched_inflight. Qed.
+
+(* writers and upgradable readers queue on the inner mutex, which is the Mutex of C05: its schedule-level theorem
+   (clause (c): with the inner mutex free nothing waits on it) is C05_sched, restated here for the record *)
+Theorem C06_sched_inner_mutex : forall (sched : list MutexEvSched.act) (nfuts : nat),
+  MutexEvSched.lostb (MutexEvSched.run MutexEvSched.gen_mutex_bt nfuts sched) = false.
+Proof. rewrite MutexEvOrd.mutex_bt_premise. exact MutexEvInv.mutex_sched_no_lost_wakeup. Qed.
+
+(* teeth: the machine without the listener drop (the code before fix 40a2a26, finding F2b) loses a wake-up *)
+Theorem C06_sched_readers_prefix_refuted :
+  RwReadEvSched.lostb (RwReadEvSched.run false 2 (RwReadEvSched.f2b_schedule false)) = true.
+Proof. exact RwReadEvInv.rw_read_sched_prefix_refuted. Qed.
+
 Print Assumptions C06_idle_nothing_pending.
 Print Assumptions C06_readers_not_blocked.
 Print Assumptions C06_mutex_free_nothing_waits.
 Print Assumptions C06_writer_not_blocked.
 Print Assumptions C06_invariant.
 Print Assumptions C06_no_error.
+Print Assumptions C06_sched_readers.
+Print Assumptions C06_sched_readers_inflight.
+Print Assumptions C06_sched_inner_mutex.
+Print Assumptions C06_sched_readers_prefix_refuted.
